@@ -50,10 +50,12 @@ type ffFS struct {
 	fired []string
 }
 
-func (f *ffFS) arm(plan map[int]int) { f.armed, f.calls, f.wcall, f.plan, f.fired = true, 0, 0, plan, nil }
+func (f *ffFS) arm(plan map[int]int) {
+	f.armed, f.calls, f.wcall, f.plan, f.fired = true, 0, 0, plan, nil
+}
 
 const ffWriteBase = 1000 // plan keys >= ffWriteBase address the n-th Write call
-func (f *ffFS) disarm()              { f.armed = false }
+func (f *ffFS) disarm()  { f.armed = false }
 
 // hit reports whether the current call must fail, and how.
 func (f *ffFS) hit(op, name string, isWrite bool) (error, bool) {
